@@ -17,6 +17,7 @@ def obligations(tier: str) -> list[Ob]:
         ),
         harness_ob(
             "resolvers_ref_equals_inline", "C20_equiv.py", tier, timeout=330 if q else 900, cpus=6,
+            finding_by_func={"reference_keeps_component_default": "C20-F1"},
             encoded=[
                 "openapi_python_client.parser.properties.schemas:parameter_from_reference", "openapi_python_client.parser.properties.schemas:parameter_from_data",
                 "openapi_python_client.parser.openapi:Endpoint.add_parameters", "openapi_python_client.parser.responses:response_from_data",
